@@ -39,6 +39,8 @@ type verifReq struct {
 	// it as the GRAMMAR_FILE argument.
 	UseFile bool `json:"use_file,omitempty"`
 	UseOut  bool `json:"use_out,omitempty"`
+	// PreOut: with UseOut, the -o target already exists with this content (an earlier run)
+	PreOut []byte `json:"pre_out,omitempty"`
 
 	Optimize   bool     `json:"optimize,omitempty"`
 	BasicLatin bool     `json:"basic_latin,omitempty"`
@@ -225,6 +227,11 @@ func verifMain(req *verifReq) (resp verifResp) {
 	}
 	dir := verifDir
 	os.Remove(dir + "/out.go")
+	if req.UseOut && len(req.PreOut) > 0 {
+		if err := os.WriteFile(dir+"/out.go", req.PreOut, 0o600); err != nil {
+			panic(err)
+		}
+	}
 	mk := func(name string, content []byte) *os.File {
 		f, err := os.OpenFile(dir+"/"+name, os.O_RDWR|os.O_CREATE|os.O_TRUNC, 0o600)
 		if err != nil {
